@@ -128,7 +128,17 @@ def gen_rule(r, preds, arity, kind, allow_expr=True):
   return {'head': head, 'atoms': atoms, 'cmps': cmps, 'aggval': aggval}
 
 
-def gen_nonrecursive(r, n_idb=None, min_idb=1):
+# Predicate names users actually write: digits, underscores, suffixes that look like (but are
+# not) the compiler's own generated names (_r<N>, _fr<N>, _ifr<N>, _f<N> are never produced here).
+NAME_POOL = ['P%d', 'P%d', 'P%d', 'Sales_q%d', 'Plan_v%d', 'T%d_x', 'Rates_y202%d', 'Node%d', 'A_b%d',
+             'Q%dTotal', 'Step_%d', 'Tmp%d']
+
+
+def idb_name(r, i):
+  return r.choice(NAME_POOL) % i
+
+
+def gen_nonrecursive(r, n_idb=None, min_idb=1, plain_names=False):
   preds = []
   for i in range(r.randint(1, 2)):
     preds.append(gen_edb(r, 'E%d' % i))
@@ -146,7 +156,7 @@ def gen_nonrecursive(r, n_idb=None, min_idb=1):
         rules.append(rule)
     if not rules:
       continue
-    d = {'name': 'P%d' % i, 'arity': ar, 'kind': kind, 'rules': rules}
+    d = {'name': 'P%d' % i if plain_names else idb_name(r, i), 'arity': ar, 'kind': kind, 'rules': rules}
     if kind == 'agg':
       d['op'] = r.choice(['+=', 'Min=', 'Max='])
     preds.append(d)
